@@ -3,6 +3,7 @@ package exec
 import (
 	"github.com/ChrisTrenkamp/xsel/grammar"
 	"github.com/ChrisTrenkamp/xsel/grammar/parser/bsr"
+	"github.com/ChrisTrenkamp/xsel/grammar/parser/symbols"
 )
 
 func execContext(context *exprContext, expr *grammar.Grammar) error {
@@ -39,9 +40,7 @@ func leftRightIndependentResult(context *exprContext, expr *grammar.Grammar) (Re
 	children := make([]*bsr.BSR, 0, 2)
 
 	for _, cn := range expr.BSR.GetAllNTChildren() {
-		for _, c := range cn {
-			children = append(children, &c)
-		}
+		children = append(children, chooseAlternative(expr, cn))
 	}
 
 	left := context.copy()
@@ -56,6 +55,55 @@ func leftRightIndependentResult(context *exprContext, expr *grammar.Grammar) (Re
 	}
 
 	return left.result, right.result, nil
+}
+
+// chooseAlternative picks the parse of a nonterminal child to evaluate. The
+// grammar is ambiguous where XPath is not: in XPath a '*' that follows a '/'
+// is always a name test, never the multiplication operator, but the parser
+// also delivers the reading "'/' multiplied by ...". Such alternatives are
+// skipped when another one exists.
+func chooseAlternative(expr *grammar.Grammar, alternatives []bsr.BSR) *bsr.BSR {
+	for i := range alternatives {
+		if !isSlashMultiply(expr, &alternatives[i]) {
+			return &alternatives[i]
+		}
+	}
+
+	return &alternatives[0]
+}
+
+func isSlashMultiply(expr *grammar.Grammar, b *bsr.BSR) bool {
+	if b.Label.Slot().NT != symbols.NT_MultiplicativeExpr {
+		return false
+	}
+
+	found := false
+
+	for _, cn := range b.GetAllNTChildren() {
+		for i := range cn {
+			if cn[i].Label.Slot().NT != symbols.NT_MultiplicativeExprMultiply || !multiplyFollowsSlash(expr, &cn[i]) {
+				return false
+			}
+
+			found = true
+		}
+	}
+
+	return found
+}
+
+// multiplyFollowsSlash reports whether the left operand of a multiplication
+// ends with the token '/', i.e. whether its '*' directly follows a '/'.
+func multiplyFollowsSlash(expr *grammar.Grammar, multiply *bsr.BSR) bool {
+	for _, left := range multiply.GetNTChildrenI(0) {
+		end := left.RightExtent()
+
+		if end > left.LeftExtent() && expr.GetStringExtents(end-1, end) == "/" {
+			return true
+		}
+	}
+
+	return false
 }
 
 func leftRightIndependentNumber(context *exprContext, expr *grammar.Grammar) (float64, float64, error) {
@@ -73,8 +121,8 @@ func leftRightIndependentNumber(context *exprContext, expr *grammar.Grammar) (fl
 
 func execChildren(context *exprContext, expr *grammar.Grammar) error {
 	for _, cn := range expr.BSR.GetAllNTChildren() {
-		for _, c := range cn {
-			return execContext(context, expr.Next(&c))
+		if len(cn) > 0 {
+			return execContext(context, expr.Next(chooseAlternative(expr, cn)))
 		}
 	}
 
